@@ -24,7 +24,7 @@ func init() {
 			"the non-Linux stubs contain no call expression at all and Supported returns the constant false; for every GOARCH either the alias map leads to an Info with a table or GetInfo's only " +
 			"success return is unreachable (dominance), and Policy.Assemble returns GetInfo's error before any emission.",
 		Trusted: []string{"go/types constant evaluation under the selected build context", "go list file selection (build constraints)", "/verif/oracle/oracle.json (linux/seccomp.h, linux/prctl.h, asm-generic/errno*.h; ENOSYS of mips from arch/mips/include/uapi/asm/errno.h)"},
-		Run: runC19,
+		Run:     runC19,
 	}
 }
 
